@@ -74,16 +74,54 @@ def assignments_to(fn_node: ast.AST, name: str) -> list[ast.AST]:
     return out
 
 
-def resolve_status_expr(e: ast.AST | None, fn_node: ast.AST, depth: int = 0) -> frozenset:
+def reaching_values(fn_node: ast.AST, at_stmt: ast.AST, name: str):
+    """Value expressions of the plain assignments `name = e` that can reach the statement containing `at_stmt`
+    (backward over the CFG; a path ends at the first statement that binds the name).  None when some reaching
+    binding is not a plain single-name assignment (loop target, tuple unpacking, augmented assignment ...) or the
+    statement is not in the CFG - the caller then falls back to all assignments of the function."""
+    cfg = cfg_of(fn_node)
+    start = cfg.stmt_node_containing(at_stmt)
+    if start is None:
+        return None
+    from .guards import stores_of_node
+
+    out, seen, work = [], set(), list(cfg.pred.get(start.id, []))
+    while work:
+        i = work.pop()
+        if i in seen:
+            continue
+        seen.add(i)
+        n = cfg.nodes[i]
+        if name in stores_of_node(n):
+            a = n.ast
+            if isinstance(a, ast.Assign) and len(a.targets) == 1 and isinstance(a.targets[0], ast.Name) and a.targets[0].id == name:
+                out.append(a.value)
+                continue
+            if isinstance(a, ast.AnnAssign) and isinstance(a.target, ast.Name) and a.target.id == name and a.value is not None:
+                out.append(a.value)
+                continue
+            return None
+        work.extend(cfg.pred.get(i, []))
+    return out
+
+
+def resolve_status_expr(e: ast.AST | None, fn_node: ast.AST, depth: int = 0, at: ast.AST | None = None) -> frozenset:
     if e is None:
         return frozenset({"OPTIMAL"})  # dataclass default
     s = is_status(e)
     if s:
         return frozenset({s})
     if isinstance(e, ast.IfExp):
-        return resolve_status_expr(e.body, fn_node, depth) | resolve_status_expr(e.orelse, fn_node, depth)
+        return resolve_status_expr(e.body, fn_node, depth, at) | resolve_status_expr(e.orelse, fn_node, depth, at)
     if isinstance(e, ast.Name) and depth < 4:
-        vals = assignments_to(fn_node, e.id)
+        vals = None
+        if at is not None:
+            try:
+                vals = reaching_values(fn_node, at, e.id)
+            except Exception:  # noqa: BLE001 - the flow-insensitive answer below is always available
+                vals = None
+        if not vals:
+            vals = assignments_to(fn_node, e.id)
         if not vals:
             return frozenset({f"PASS:{e.id}"})
         out: frozenset = frozenset()
@@ -103,7 +141,7 @@ def result_sites(f: Func, ctor: str = "Result") -> list[ResultSite]:
             star = any(isinstance(a, ast.Starred) for a in n.args) or any(k.arg is None for k in n.keywords)
             i = RESULT_FIELDS.index("status")
             e = n.args[i] if i < len(n.args) else next((k.value for k in n.keywords if k.arg == "status"), None)
-            st = frozenset({"?"}) if star else resolve_status_expr(e, f.node)
+            st = frozenset({"?"}) if star else resolve_status_expr(e, f.node, 0, n)
             out.append(ResultSite(f, n, cfg.stmt_node_containing(n), st))
     out.sort(key=lambda r: (r.call.lineno, r.call.col_offset))
     return out
